@@ -300,6 +300,10 @@ func NewReporter(opts Options) (Reporter, error) {
 		tagCache:        cache.NewTagCache(),
 	}
 
+	// n.b. Set the clock before anything can be reported: the goroutine that
+	//      refreshes it may not have run yet when the first value arrives.
+	r.now.Store(time.Now().UnixNano())
+
 	internalTags := map[string]string{
 		"version":  tally.Version,
 		"host":     tally.DefaultTagRedactValue,
